@@ -47,7 +47,10 @@ def gen_adat(rng):
     if k < 0.25:       # a grid symmetric about 0 (linspace(-1, 1, m), as the plotting code uses)
         m = rng.choice([5, 6, 9, 12])
         return [-1.0 + 2.0 * i / (m - 1) for i in range(m)]
-    if k < 0.4:        # symmetric set of random points, unsorted
+    if k < 0.5:        # repeated values: the same point several times, two grids sharing an end point, -0.0 next to 0.0
+        a = rng.uniform(-1, 1)
+        return [a, a, rng.uniform(-1, 1), a, 1.0, 0.5, 1.0, -0.0, 0.0] + [-1.0 + i / 4 for i in range(5)] + [i / 4 for i in range(5)]
+    if k < 0.62:       # symmetric set of random points, unsorted
         ps = [rng.uniform(0, 1) for _ in range(4)]
         pts = [x for p in ps for x in (p, -p)]
         rng.shuffle(pts)
